@@ -637,7 +637,145 @@ static void enum_vectors(Enum& e) {
   e.complete("the published test vectors (RFC 1321 suite, FIPS 180 examples, CRC-32 check value, FNV-1a reference values), each under every ambient locale state");
 }
 
+// ---------------------------------------------------------------- ambient state: after main() (static destruction, atexit)
+//
+// The hash functions are plain functions of their arguments with no "no longer usable" phase: a program may call them
+// while it shuts down - a process-lifetime journal / cache / log object that writes a checksummed footer from its
+// destructor, an atexit handler that prints a digest - i.e. AFTER main() has returned. This is the mirror image of
+// "before main()" (C08's before_main). Whatever the functions set up lazily on first use (function-local statics) was
+// constructed after the objects below and is therefore destroyed BEFORE their handlers run.
+//   * `g_after_main` is a namespace-scope object of this translation unit, which is linked before the library objects:
+//     it is constructed before the library's own namespace-scope objects and before anything first used inside main(),
+//     hence destroyed after all of them. Its constructor calls no hash function (a function-local static first used
+//     there would outlive the object and hide the problem).
+//   * an atexit handler is registered as the first statement of main(), before any hash function was called.
+// prime() - called from main() before the subchecks, also on the replay path - computes the expected values of every
+// function on a few fixed inputs with the reference implementations (zlib, OpenSSL, the FNV recurrence) and calls every
+// phosg function once, so that each one's first use is inside main(). Both handlers call every function again and
+// compare. A handler cannot throw: on a mismatch it prints `VERIF-ABORT: after-main-<function>` and _exit(79)s; the
+// driver reports a shard that dies outside a case as `c10_hash/crash:abort:after-main-<function>` (and ASan reports a
+// use-after-free by itself). On success it is silent.
+namespace after_main {
+
+struct Expected {
+  std::string input;
+  uint32_t crc, crc_chained, f32;
+  uint64_t f64;
+  std::string md5, sha1, sha256; // binary digests
+};
+struct State {
+  bool primed = false;
+  std::vector<Expected> exp;
+  ~State(); // the "destructor of a static object constructed before the first call"
+};
+static State g_after_main;
+
+static std::string input(size_t k) {
+  switch (k) {
+    case 0: return std::string();
+    case 1: return "a";
+    case 2: return "123456789";
+    case 3: {
+      std::string s;
+      for (int b = 0; b < 256; b++) s.push_back(static_cast<char>(b));
+      return s;
+    }
+    case 4: return std::string(55, 'x') + std::string(9, '\0'); // exactly one block
+    default: {
+      std::string s(5000, '\0');
+      for (size_t i = 0; i < s.size(); i++) s[i] = static_cast<char>((i * 131) % 251);
+      return s;
+    }
+  }
+}
+constexpr size_t kNumInputs = 6;
+constexpr uint32_t kSeed32 = 0x2F0B4A17u;
+
+[[noreturn]] static void die(const char* phase, const char* fn, const Expected& e, const std::string& got, const std::string& want) {
+  // async-signal-safe enough: one formatted write to stderr, then _exit (no further destructors, no exception)
+  fprintf(stderr, "\nVERIF-ABORT: after-main-%s (%s called %s on a %zu-byte input returned %s, the reference value is %s; the same call was correct inside main())\n",
+      fn, fn, phase, e.input.size(), got.c_str(), want.c_str());
+  fflush(stderr);
+  _exit(79);
+}
+static std::string h32(uint32_t v) {
+  char b[16];
+  snprintf(b, sizeof(b), "%08X", v);
+  return b;
+}
+static std::string h64(uint64_t v) {
+  char b[24];
+  snprintf(b, sizeof(b), "%016llX", static_cast<unsigned long long>(v));
+  return b;
+}
+
+// every function, every fixed input; `phase` = nullptr: first use inside main() (results not compared here - the subchecks do that)
+static void call_all(const char* phase) {
+  for (const Expected& e : g_after_main.exp) {
+    const std::string& d = e.input;
+    size_t half = d.size() / 2;
+    uint32_t crc = phosg::crc32(d.data(), d.size());
+    uint32_t crc_ch = phosg::crc32(d.data() + half, d.size() - half, phosg::crc32(d.data(), half, kSeed32));
+    uint32_t f32 = phosg::fnv1a32(d), f32p = phosg::fnv1a32(d.data() + half, d.size() - half, phosg::fnv1a32(d.data(), half));
+    uint64_t f64 = phosg::fnv1a64(d), f64p = phosg::fnv1a64(d.data() + half, d.size() - half, phosg::fnv1a64(d.data(), half));
+    phosg::MD5 m(d);
+    phosg::SHA1 s1(d.data(), d.size());
+    phosg::SHA256 s2(d);
+    std::string mb = m.bin(), mh = to_lower(m.hex()), s1b = s1.bin(), s1h = to_lower(s1.hex()), s2b = s2.bin(), s2h = to_lower(s2.hex());
+    if (!phase) continue;
+    if (crc != e.crc) die(phase, "crc32", e, h32(crc), h32(e.crc));
+    if (crc_ch != e.crc_chained) die(phase, "crc32", e, h32(crc_ch) + " (chained)", h32(e.crc_chained));
+    if (f32 != e.f32) die(phase, "fnv1a32", e, h32(f32), h32(e.f32));
+    if (f32p != e.f32) die(phase, "fnv1a32", e, h32(f32p) + " (chained)", h32(e.f32));
+    if (f64 != e.f64) die(phase, "fnv1a64", e, h64(f64), h64(e.f64));
+    if (f64p != e.f64) die(phase, "fnv1a64", e, h64(f64p) + " (chained)", h64(e.f64));
+    if (mb != e.md5) die(phase, "MD5-bin", e, lower_hex(mb), lower_hex(e.md5));
+    if (mh != lower_hex(e.md5)) die(phase, "MD5-hex", e, mh, lower_hex(e.md5));
+    if (s1b != e.sha1) die(phase, "SHA1-bin", e, lower_hex(s1b), lower_hex(e.sha1));
+    if (s1h != lower_hex(e.sha1)) die(phase, "SHA1-hex", e, s1h, lower_hex(e.sha1));
+    if (s2b != e.sha256) die(phase, "SHA256-bin", e, lower_hex(s2b), lower_hex(e.sha256));
+    if (s2h != lower_hex(e.sha256)) die(phase, "SHA256-hex", e, s2h, lower_hex(e.sha256));
+  }
+}
+
+State::~State() {
+  if (primed) call_all("from the destructor of a namespace-scope object constructed before main() (static destruction, after main() returned)");
+}
+static void atexit_handler() {
+  if (g_after_main.primed) call_all("from an atexit handler registered at the start of main() (after main() returned)");
+}
+
+// first statement of main(): nothing of the library has run yet
+static void arm() {
+  if (atexit(atexit_handler) != 0) throw std::logic_error("C10: atexit failed");
+}
+// expected values from the reference implementations (they are not usable during shutdown themselves: OpenSSL tears
+// itself down from its own atexit handler), then the first use of every phosg function - inside main()
+static void prime() {
+  State& st = g_after_main;
+  for (size_t k = 0; k < kNumInputs; k++) {
+    Expected e;
+    e.input = input(k);
+    const std::string& d = e.input;
+    size_t half = d.size() / 2;
+    e.crc = ref_crc(d);
+    e.crc_chained = ref_crc(d.substr(half), ref_crc(d.substr(0, half), kSeed32));
+    e.f32 = ref_fnv32(d, 0x811C9DC5u);
+    e.f64 = ref_fnv64(d, 0xCBF29CE484222325ULL);
+    e.md5 = evp(EVP_md5(), d.data(), d.size());
+    e.sha1 = evp(EVP_sha1(), d.data(), d.size());
+    e.sha256 = evp(EVP_sha256(), d.data(), d.size());
+    st.exp.push_back(std::move(e));
+  }
+  call_all(nullptr);
+  st.primed = true;
+}
+
+} // namespace after_main
+
 int main(int argc, char** argv) {
+  after_main::arm();
+  after_main::prime();
   std::vector<SubCheck> checks;
   checks.push_back({"vectors", run_vectors, nullptr, 0, 0, 100, enum_vectors});
   checks.push_back({"digest", run_digest, gen_digest, 100000, 600000, 100, enum_digest});
